@@ -14,7 +14,7 @@ import (
 func init() {
 	register(&PropSpec{
 		ID:       "C11",
-		Patterns: []string{"./pkg/network", "./pkg/server", "./pkg/stagemanager", "./pkg/module/http2"},
+		Patterns: []string{"./pkg/network", "./pkg/server", "./pkg/stagemanager", "./pkg/module/http2", "./pkg/stream/http", "./pkg/stream/http2", "./pkg/stream/xprotocol"},
 		Explanation: "Only orderings that are necessary for the documented behaviour are decided (the substance — no request fails around a signal — depends on two processes, kernel accept queues, fd passing and timing and is out of reach of a static argument): " +
 			"(O1) listener.Shutdown: on the non-upgrade branch the listener is closed before the drain callback, on the upgrade branch accepting is stopped before it and the listening socket is NOT closed (the new process owns it); " +
 			"(O2) activeListener.OnShutdown notifies every connection (OnShutdown event) and then waits in waitConnectionsClose(drainTime) on every path; the wait loop re-reads the active-stream gauge and is bounded by the elapsed time; " +
@@ -36,6 +36,8 @@ func runC11(c *Ctx) {
 	defer c11GoAway(c)
 	c.Rule("C11.O7", "frames for streams refused by the GOAWAY are discarded, never answered with a connection error", 1)
 	defer c11RefusedStreams(c)
+	c.Rule("C11.O8", "the shutdown notification (GoAway) of a server stream connection never closes the connection", 2)
+	defer c11ShutdownNeverCloses(c)
 	c.NotDecided = append(c.NotDecided, "that no request on a new, handed-over or in-flight connection fails around SIGTERM/SIGHUP (cross-process, kernel and timing dependent)", "fd passing over the unix socket, inheritance of listeners by the new process", "HTTP/2 GOAWAY and keep-alive draining")
 
 	named := func(n string) func(cc *ssa.CallCommon) bool {
@@ -510,4 +512,46 @@ func c11RefusedStreams(c *Ctx) {
 		return handlers[b] && a1 != 2 && a2 != 2
 	})
 	c.Check("C11.O7", funcKey(fn)+":refused-stream-frames-discarded", fn.Pos(), !bad, "while in GOAWAY, frames for streams above the advertised last stream id never reach the per-type handlers", "after a graceful GOAWAY a frame for a stream MOSN refused (RST_STREAM from the cancelling client, late DATA) reaches the per-type handlers, is answered with a connection error and the connection is closed: requests in flight on it fail because of the shutdown")
+}
+
+// c11ShutdownNeverCloses (O8): telling a connection that MOSN is shutting down never closes it.
+// On api.OnShutdown the proxy calls GoAway() on the server stream connection: protocols that can, tell the peer to stop
+// sending new requests (HTTP/2 GOAWAY, xprotocol go-away frame); the connection itself keeps being served while
+// waitConnectionsClose drains. A GoAway implementation that closes the connection (e.g. because it "looks idle") cuts
+// requests that are only partly received - the stream layer does not know about them yet. Clause: no Close of the
+// network connection is statically reachable from any GoAway() of a server-side stream connection.
+func c11ShutdownNeverCloses(c *Ctx) {
+	n := 0
+	for _, pkg := range []string{"pkg/stream/http", "pkg/stream/http2", "pkg/stream/xprotocol"} {
+		for _, fn := range c.PkgFuncs(pkg) {
+			if fn.Name() != "GoAway" || fn.Signature.Recv() == nil || fn.Signature.Params().Len() != 0 {
+				continue
+			}
+			rt := strings.ToLower(typeName(fn.Signature.Recv().Type()))
+			if strings.Contains(rt, "client") {
+				continue
+			}
+			n++
+			var closes ssa.Instruction
+			for f := range staticReach([]*ssa.Function{fn}, pkg) {
+				forEachInstr(f, false, func(_ *ssa.Function, in ssa.Instruction) {
+					ci, ok := in.(ssa.CallInstruction)
+					if !ok || !ci.Common().IsInvoke() || ci.Common().Method.Name() != "Close" {
+						return
+					}
+					if strings.HasSuffix(ci.Common().Value.Type().String(), "api.Connection") || strings.HasSuffix(ci.Common().Value.Type().String(), "types.Connection") {
+						closes = in
+					}
+				})
+			}
+			pos := fn.Pos()
+			if closes != nil {
+				pos = closes.Pos()
+			}
+			c.Check("C11.O8", funcKey(fn)+":go-away-does-not-close", pos, closes == nil, "the shutdown notification only tells the peer; the connection keeps being served while it drains", "GoAway closes the downstream connection: a request that is only partly received when the shutdown signal arrives (the stream layer does not count it yet) is cut off instead of being served during the drain")
+		}
+	}
+	if n < 2 {
+		c.Unresolved("C11.O8", fmt.Sprintf("server-side GoAway implementations (found %d)", n))
+	}
 }
